@@ -166,7 +166,11 @@ ConstrLists(S) == {<<>>} \cup {<<c>> : c \in S} \cup {<<c, d>> : c \in S, d \in 
 (* numerically.  Applicability conditions are written as such.               *)
 ScnKinds == {"default", "extended", "cached_int", "cached_amp", "simple", "cfit", "cfit_cached", "cfit_ext", "simple_cfit",
              \* the remaining likelihood models tf_pwa/model/custom.py registers (the harness compares with the registry)
-             "simple_clip", "simple_chi2", "constr_frac", "cfit_constr_frac"}
+             "simple_clip", "simple_chi2", "constr_frac", "cfit_constr_frac",
+             \* MixLogLikehoodFCN (`using_mix_likelihood: True`) over the default / the extended model: nll_grad through
+             \* sum_nll_grad_bacth + sum_log_integral_grad_batch (MixGradFormula), Hessian and Hessian-vector product
+             \* inherited from CombineFCN over the inner FCN objects
+             "mix_default", "mix_extended"}
 CachedKinds == {"cached_int", "cached_amp", "cfit_cached"}
 Applicable(sc) ==
     \* cached integrals / amplitudes are valid only while no line-shape parameter floats (opt_int.py:133)
@@ -185,6 +189,7 @@ Applicable(sc) ==
     \* a detector-resolution model (every event a weighted group of `resolution` consecutive samples,
     \* `resolution_size` in the data configuration) is taken by Model and Model_cfit (config_loader._get_model)
     /\ (sc.resolution = 2 => sc.kind \in {"default", "extended", "cfit"} /\ sc.shape = "columns")
+    \* (the mixed likelihood hands the resolution to the data sum only through the model; not claimed here)
 Scenarios ==
     {sc \in [kind : ScnKinds, floating : {"couplings", "mass", "mass_width"},
              bounds : {"none", "coupling_two", "coupling_lower", "coupling_upper", "mass_two", "width_lower", "mixed"},
@@ -280,6 +285,13 @@ CodeHesspCachedAmp(c) ==
                            VScale(QNeg(QDiv(Dot(c.p, c.im.g), QMul(c.im.v, c.im.v))), c.im.g))),
          VScale(<<-1, 1>>, MVec(c.ld.h, c.p)))
 GradFormula == cs.part = "default" => CodeGrad(cs) = TrueDefault(cs).g
+\* MixLogLikehoodFCN.get_nll_grad (model.py): -sum_nll_grad_bacth(merged data) + sum_k sum_log_integral_grad_batch(k):
+\*   value n_k int_f(I_k), gradient n_k int_g(I_k) grad I_k  (model.py:353-363); two data sets: (sw, im) and (2, MixJ2)
+MixJ2 == Jet(<<2, 1>>, <<QOne, <<-1, 1>>>>, <<<<QOne, QZero>>, <<QZero, <<-1, 1>>>>>>)
+TrueMix(c) == JSub(JAdd(JScale(c.sw, IntF(c.ext, c.im)), JScale(<<2, 1>>, IntF(c.ext, MixJ2))), c.ld)
+CodeGradMix(c) == VAdd(VAdd(VScale(<<-1, 1>>, c.ld.g), VScale(QMul(c.sw, IntG(c.ext, c.im.v)), c.im.g)),
+                       VScale(QMul(<<2, 1>>, IntG(c.ext, MixJ2.v)), MixJ2.g))
+MixGradFormula == cs.part = "default" => CodeGradMix(cs) = TrueMix(cs).g
 HessFormula == cs.part = "default" => CodeHess(cs) = TrueDefault(cs).h
 HesspFormula == cs.part = "default" => CodeHessp(cs) = MVec(TrueDefault(cs).h, cs.p)
 CachedIntFormula == cs.part = "default" /\ ~cs.ext =>
